@@ -69,3 +69,240 @@ impl<T: Clone> Clone for OnceLock<T> {
         c
     }
 }
+
+// ---------------------------------------------------------------------------------------------
+// Hash collections whose iteration order the explorer owns: std's HashMap / HashSet with a
+// BuildHasher seeded from a value the harness sets before it builds an input. One seed = one
+// deterministic family of iteration orders; std's RandomState would differ from map to map and
+// from run to run.
+
+thread_local! {
+    static HASH_SEED: std::cell::Cell<u64> = const { std::cell::Cell::new(0) };
+}
+
+/// Must be called before any map that will be used under this seed is created.
+pub fn set_hash_seed(s: u64) {
+    HASH_SEED.with(|c| c.set(s));
+}
+
+#[derive(Clone, Copy, Default, Debug)]
+pub struct SeedState;
+
+impl std::hash::BuildHasher for SeedState {
+    type Hasher = std::collections::hash_map::DefaultHasher;
+    fn build_hasher(&self) -> Self::Hasher {
+        use std::hash::Hasher;
+        let mut h = std::collections::hash_map::DefaultHasher::new();
+        h.write_u64(HASH_SEED.with(|c| c.get()));
+        h
+    }
+}
+
+type StdMap<K, V> = std::collections::HashMap<K, V, SeedState>;
+type StdSet<K> = std::collections::HashSet<K, SeedState>;
+
+/// `std::collections::HashMap` with the seeded hasher. A newtype (not an alias) so that
+/// `HashMap::new()`, `with_capacity`, `From<[_; N]>` and aliases of it keep working unchanged;
+/// everything else is reached through `Deref`.
+#[derive(Clone)]
+pub struct HashMap<K, V>(pub StdMap<K, V>);
+#[derive(Clone)]
+pub struct HashSet<K>(pub StdSet<K>);
+
+impl<K, V> HashMap<K, V> {
+    pub fn new() -> Self {
+        HashMap(StdMap::default())
+    }
+    pub fn with_capacity(n: usize) -> Self {
+        HashMap(StdMap::with_capacity_and_hasher(n, SeedState))
+    }
+}
+impl<K> HashSet<K> {
+    pub fn new() -> Self {
+        HashSet(StdSet::default())
+    }
+    pub fn with_capacity(n: usize) -> Self {
+        HashSet(StdSet::with_capacity_and_hasher(n, SeedState))
+    }
+}
+impl<K, V> Default for HashMap<K, V> {
+    fn default() -> Self {
+        Self::new()
+    }
+}
+impl<K> Default for HashSet<K> {
+    fn default() -> Self {
+        Self::new()
+    }
+}
+impl<K, V> std::ops::Deref for HashMap<K, V> {
+    type Target = StdMap<K, V>;
+    fn deref(&self) -> &Self::Target {
+        &self.0
+    }
+}
+impl<K, V> std::ops::DerefMut for HashMap<K, V> {
+    fn deref_mut(&mut self) -> &mut Self::Target {
+        &mut self.0
+    }
+}
+impl<K> std::ops::Deref for HashSet<K> {
+    type Target = StdSet<K>;
+    fn deref(&self) -> &Self::Target {
+        &self.0
+    }
+}
+impl<K> std::ops::DerefMut for HashSet<K> {
+    fn deref_mut(&mut self) -> &mut Self::Target {
+        &mut self.0
+    }
+}
+impl<K: std::fmt::Debug, V: std::fmt::Debug> std::fmt::Debug for HashMap<K, V> {
+    fn fmt(&self, f: &mut std::fmt::Formatter<'_>) -> std::fmt::Result {
+        self.0.fmt(f)
+    }
+}
+impl<K: std::fmt::Debug> std::fmt::Debug for HashSet<K> {
+    fn fmt(&self, f: &mut std::fmt::Formatter<'_>) -> std::fmt::Result {
+        self.0.fmt(f)
+    }
+}
+impl<K: Eq + std::hash::Hash, V: PartialEq> PartialEq for HashMap<K, V> {
+    fn eq(&self, o: &Self) -> bool {
+        self.0 == o.0
+    }
+}
+impl<K: Eq + std::hash::Hash, V: Eq> Eq for HashMap<K, V> {}
+impl<K: Eq + std::hash::Hash> PartialEq for HashSet<K> {
+    fn eq(&self, o: &Self) -> bool {
+        self.0 == o.0
+    }
+}
+impl<K: Eq + std::hash::Hash> Eq for HashSet<K> {}
+impl<K: Eq + std::hash::Hash, V> FromIterator<(K, V)> for HashMap<K, V> {
+    fn from_iter<I: IntoIterator<Item = (K, V)>>(it: I) -> Self {
+        HashMap(StdMap::from_iter(it))
+    }
+}
+impl<K: Eq + std::hash::Hash> FromIterator<K> for HashSet<K> {
+    fn from_iter<I: IntoIterator<Item = K>>(it: I) -> Self {
+        HashSet(StdSet::from_iter(it))
+    }
+}
+impl<K: Eq + std::hash::Hash, V, const N: usize> From<[(K, V); N]> for HashMap<K, V> {
+    fn from(a: [(K, V); N]) -> Self {
+        a.into_iter().collect()
+    }
+}
+impl<K: Eq + std::hash::Hash, const N: usize> From<[K; N]> for HashSet<K> {
+    fn from(a: [K; N]) -> Self {
+        a.into_iter().collect()
+    }
+}
+impl<K, V> IntoIterator for HashMap<K, V> {
+    type Item = (K, V);
+    type IntoIter = std::collections::hash_map::IntoIter<K, V>;
+    fn into_iter(self) -> Self::IntoIter {
+        self.0.into_iter()
+    }
+}
+impl<'a, K, V> IntoIterator for &'a HashMap<K, V> {
+    type Item = (&'a K, &'a V);
+    type IntoIter = std::collections::hash_map::Iter<'a, K, V>;
+    fn into_iter(self) -> Self::IntoIter {
+        self.0.iter()
+    }
+}
+impl<'a, K, V> IntoIterator for &'a mut HashMap<K, V> {
+    type Item = (&'a K, &'a mut V);
+    type IntoIter = std::collections::hash_map::IterMut<'a, K, V>;
+    fn into_iter(self) -> Self::IntoIter {
+        self.0.iter_mut()
+    }
+}
+impl<K> IntoIterator for HashSet<K> {
+    type Item = K;
+    type IntoIter = std::collections::hash_set::IntoIter<K>;
+    fn into_iter(self) -> Self::IntoIter {
+        self.0.into_iter()
+    }
+}
+impl<'a, K> IntoIterator for &'a HashSet<K> {
+    type Item = &'a K;
+    type IntoIter = std::collections::hash_set::Iter<'a, K>;
+    fn into_iter(self) -> Self::IntoIter {
+        self.0.iter()
+    }
+}
+impl<K: Eq + std::hash::Hash, V> Extend<(K, V)> for HashMap<K, V> {
+    fn extend<I: IntoIterator<Item = (K, V)>>(&mut self, it: I) {
+        self.0.extend(it)
+    }
+}
+impl<K: Eq + std::hash::Hash> Extend<K> for HashSet<K> {
+    fn extend<I: IntoIterator<Item = K>>(&mut self, it: I) {
+        self.0.extend(it)
+    }
+}
+impl<K: Eq + std::hash::Hash + std::borrow::Borrow<Q>, Q: Eq + std::hash::Hash + ?Sized, V> std::ops::Index<&Q> for HashMap<K, V> {
+    type Output = V;
+    fn index(&self, k: &Q) -> &V {
+        self.0.get(k).expect("no entry found for key")
+    }
+}
+
+// rayon (the stand-in's traits): parallel collection into / iteration over the wrappers
+mod par {
+    use super::{HashMap, HashSet, StdMap, StdSet};
+    use rayon::iter::{FromParallelIterator, IntoParallelIterator, ParallelExtend};
+    use std::hash::Hash;
+
+    impl<K: Eq + Hash + Send, V: Send> FromParallelIterator<(K, V)> for HashMap<K, V> {
+        fn from_par_iter<I: IntoParallelIterator<Item = (K, V)>>(i: I) -> Self {
+            HashMap(StdMap::from_par_iter(i))
+        }
+    }
+    impl<K: Eq + Hash + Send> FromParallelIterator<K> for HashSet<K> {
+        fn from_par_iter<I: IntoParallelIterator<Item = K>>(i: I) -> Self {
+            HashSet(StdSet::from_par_iter(i))
+        }
+    }
+    impl<K: Eq + Hash + Send, V: Send> ParallelExtend<(K, V)> for HashMap<K, V> {
+        fn par_extend<I: IntoParallelIterator<Item = (K, V)>>(&mut self, i: I) {
+            self.0.par_extend(i)
+        }
+    }
+    impl<K: Eq + Hash + Send> ParallelExtend<K> for HashSet<K> {
+        fn par_extend<I: IntoParallelIterator<Item = K>>(&mut self, i: I) {
+            self.0.par_extend(i)
+        }
+    }
+    impl<K: Eq + Hash + Send, V: Send> IntoParallelIterator for HashMap<K, V> {
+        type Item = (K, V);
+        type Iter = <StdMap<K, V> as IntoParallelIterator>::Iter;
+        fn into_par_iter(self) -> Self::Iter {
+            self.0.into_par_iter()
+        }
+    }
+    impl<'a, K: Eq + Hash + Sync + 'a, V: Sync + 'a> IntoParallelIterator for &'a HashMap<K, V> {
+        type Item = (&'a K, &'a V);
+        type Iter = <&'a StdMap<K, V> as IntoParallelIterator>::Iter;
+        fn into_par_iter(self) -> Self::Iter {
+            (&self.0).into_par_iter()
+        }
+    }
+    impl<K: Eq + Hash + Send> IntoParallelIterator for HashSet<K> {
+        type Item = K;
+        type Iter = <StdSet<K> as IntoParallelIterator>::Iter;
+        fn into_par_iter(self) -> Self::Iter {
+            self.0.into_par_iter()
+        }
+    }
+    impl<'a, K: Eq + Hash + Sync + 'a> IntoParallelIterator for &'a HashSet<K> {
+        type Item = &'a K;
+        type Iter = <&'a StdSet<K> as IntoParallelIterator>::Iter;
+        fn into_par_iter(self) -> Self::Iter {
+            (&self.0).into_par_iter()
+        }
+    }
+}
